@@ -168,6 +168,35 @@ CHECKS.update({
     ),
 })
 
+CHECKS.update({
+    "C12": (
+        "exploration",
+        "conformance testing of generated encoder output with an independent "
+        "quote-aware line-level reader (vlib/surface.py), no pvl code in the oracle",
+        "Every text an encoder returns for thousands of generated modules and option "
+        "sets is scanned and re-read by a reader written for this check: character "
+        "set, line ends, keyword spelling, statement delimiters, ODL parameter-name "
+        "form, units placement, one-line symbol strings, tabs, final END, "
+        "indentation = level x indent, '=' alignment, block pairing and end-block "
+        "names. Sampled.",
+        "Trusted: vlib/surface.py; the alignment rule is applied only to one-line "
+        "statements that fit in width when aligned.",
+        "DESIGN.md 4/C12",
+    ),
+    "C13": (
+        "exploration",
+        "property testing with repeated calls: snapshot of the argument (structure, "
+        "classes, leaf identities) before/after each of three dumps, texts compared",
+        "Generated modules (40% block-heavy: group-only, duplicate block names, "
+        "non-PDS groups) are dumped three times through one encoder instance, fresh "
+        "encoders or pvl.dumps defaults; the argument must be unchanged (only "
+        "PVLGroup->PVLObject permitted under PDS3) and every call must return the "
+        "same text or refuse the same way. Sampled.",
+        "Trusted: the snapshot function; canonical forms of vlib/normalise.py.",
+        "DESIGN.md 4/C13",
+    ),
+})
+
 PENDING = {}   # id -> reason while a check is not built yet
 
 
